@@ -6,6 +6,8 @@ mod session;
 mod handle;
 #[cfg(feature = "hooks")]
 mod msgpack;
+#[cfg(feature = "hooks")]
+mod utf;
 
 use std::fs::File;
 use std::io::{BufWriter, Write};
@@ -56,6 +58,20 @@ fn main() {
 			let j = serde_json::json!({
 				"cases": st.cases, "kinds": st.kinds, "verdicts": st.verdicts, "nontrivial": st.nontrivial,
 				"oracle_failures": st.oracle_failures, "samples": st.samples, "exhaustive_len": st.exhaustive_len,
+			});
+			println!("{j}");
+		}
+		#[cfg(feature = "hooks")]
+		"utf" => {
+			let mut cw = BufWriter::new(File::create(format!("{out}/cases.txt")).unwrap());
+			let mut iw = BufWriter::new(File::create(format!("{out}/impl.txt")).unwrap());
+			let st = utf::generate_and_run(seed, &tier, &mut cw, &mut iw);
+			cw.flush().unwrap();
+			iw.flush().unwrap();
+			let j = serde_json::json!({
+				"cases": st.cases, "kinds": st.kinds, "ends": st.ends, "nontrivial": st.nontrivial,
+				"scalars_covered": st.scalars_covered, "exhaustive_scalars": st.exhaustive_scalars,
+				"oracle_failures": st.oracle_failures, "samples": st.samples,
 			});
 			println!("{j}");
 		}
